@@ -183,8 +183,11 @@ func (w *wsStream) Read(p []byte) (int, error) {
 func (w *wsStream) SetDeadline(t time.Time) error { return nil }
 
 // c15Garbage: what a garbage-sending peer says - random bytes, or text that looks like some other protocol
-// (complete header blocks, request lines with too few or too many words)
-var c15Garbage = []string{"", "GET / HTTP/1.1\r\nHost: x\r\n\r\n", "GET /\r\n\r\n", "HELO x\r\n\r\n", "X-SOCKETACE /\r\n\r\n", "\r\n\r\n", "X-SOCKETACE\r\n\r\n", "SSH-2.0-OpenSSH_9.6\r\n", "a b c d e f\r\nk: v\r\n\r\n", " / \r\n\r\n"}
+// (complete header blocks, request lines with too few or too many words, near misses of the announcement)
+var c15Garbage = []string{"", "GET / HTTP/1.1\r\nHost: x\r\n\r\n", "GET /\r\n\r\n", "HELO x\r\n\r\n", "X-SOCKETACE /\r\n\r\n", "\r\n\r\n", "X-SOCKETACE\r\n\r\n", "SSH-2.0-OpenSSH_9.6\r\n", "a b c d e f\r\nk: v\r\n\r\n", " / \r\n\r\n",
+	// near misses of the genuine announcement: the supported version in the wrong case, padded, with a suffix, absent
+	"X-SOCKETACE / HTTP/1.1\r\nAccepts-Protocol-Version: V2.0.0\r\nUser-Agent: x\r\n\r\n", "X-SOCKETACE / HTTP/1.1\r\nAccepts-Protocol-Version:   v2.0.0  , V2.0.0\r\n\r\n",
+	"X-SOCKETACE / HTTP/1.1\r\nAccepts-Protocol-Version: v2.0.0-rc1\r\n\r\n", "X-SOCKETACE / HTTP/1.1\r\nAccepts-Protocol-Version:\r\n\r\n", "x-socketace / http/1.1\r\naccepts-protocol-version: v2.0.0\r\n\r\n"}
 
 func misbehave(conn net.Conn, behaviour string, garbage string, rest []byte) {
 	switch behaviour {
